@@ -185,7 +185,7 @@ def sched_configs(r, tier):
 # loop is held after a success)
 REPLAY = {'quick': [('ab', 2, 80, 1)],
           'thorough': [('ab', 2, None, 1), ('a_b', 2, None, 1),
-                       ('abc', 2, 500, 1), ('ab_c', 3, 400, 0)]}
+                       ('abc', 2, 500, 1), ('ab_c', 3, None, 1, 'num=800')]}
 
 
 def replay_report(rep, rr):
